@@ -53,6 +53,7 @@ P_C02 == [][Step(C02_Step)]_vars
 P_C03 == [][Step(C03_Step)]_vars
 P_C04 == [][Step(C04_Step)]_vars
 P_C05 == [][Step(C05_Step)]_vars
+P_C06 == [][Step(C06_Step)]_vars
 P_C07 == [][Step(C07_Step)]_vars
 P_C08 == [][Step(C08_Step)]_vars
 P_C09 == [][Step(C09_Step)]_vars
@@ -65,6 +66,7 @@ P_C16 == [][Step(C16_Step)]_vars
 P_C17 == [][Step(C17_Step)]_vars
 P_C11 == [][Step(C11_Safety)]_vars
 P_C11f == [][LET e == Trace[l'] IN e.ev = "faultEnd" => C11_Final(hist.ref, e)]_vars
+P_C18 == [][Step(C18_Step)]_vars
 P_C19 == [][Step(C19_Step)]_vars
 
 \* C09, spacing: two syncs of one replica set that issue pod writes (status writes succeeding) are at least
